@@ -477,11 +477,11 @@ def model(ctx):
     thorough = ctx.tier == 'thorough'
     env = {'MC_TIER': ctx.tier, 'MC_MUT': 'none'}
     ctx.model_must_hold('MC_C01', 'MC_C01.cfg', env=env, timeout=3000 if thorough else 600,
-                        workers=12 if thorough else 8)
+                        workers=12 if thorough else 8, xmx='6g')
     # the clauses must reject seeded deviations of the transcription (evidence about the specification, not a verdict)
     rejected = {}
     for mut in ('swap', 'stride', 'flatF'):
-        r = ctx.tlc_model('MC_C01', 'MC_C01.cfg', env={'MC_TIER': 'quick', 'MC_MUT': mut}, timeout=600, workers=4,
+        r = ctx.tlc_model('MC_C01', 'MC_C01.cfg', env={'MC_TIER': 'quick', 'MC_MUT': mut}, timeout=600, workers=4, xmx='6g',
                           label=f'seeded model deviation {mut} (violation expected)')
         rejected[mut] = bool(r['violated'])
     ctx.notes['model_deviations_rejected'] = rejected
@@ -528,7 +528,7 @@ def run(ctx):
     if 'exc' in box:
         raise box['exc']
     ctx.notes['skipped_outside_exact_universe'] = sum(1 for s in scs if not s['events'])
-    ctx.validate('TraceC01', scs)
+    ctx.validate('TraceC01', scs, jvms=8)
     keys = {json.dumps([s['tags'].get(k) for k in ('kind', 'btype', 'eu', 'ev', 'tier', 'family')] +
                        [s['recipe'].get('bil'), s['recipe'].get('form')], sort_keys=True)
             for s in scs if s['events']}
@@ -549,8 +549,8 @@ def run(ctx):
 def replay(ctx, doc):
     sc = doc['scenario']
     if sc.get('recipe', {}).get('driver') == 'model':
-        ctx.model_must_hold('MC_C01', 'MC_C01.cfg', env={'MC_TIER': ctx.tier, 'MC_MUT': 'none'}, timeout=1800, workers=8)
+        ctx.model_must_hold('MC_C01', 'MC_C01.cfg', env={'MC_TIER': ctx.tier, 'MC_MUT': 'none'}, timeout=1800, workers=8, xmx='6g')
         return ctx.finish(rule=RULE)
     sc2 = scenario(sc['id'], sc['recipe'], sc.get('tags', {}))
-    ctx.validate('TraceC01', [sc2])
+    ctx.validate('TraceC01', [sc2], jvms=8)
     return ctx.finish(rule=RULE)
